@@ -83,6 +83,21 @@ pub fn generate(rng: &mut Rng, prop: Prop) -> Scenario {
             22 => {
                 let n = rng.urange(1, 3);
                 let big = rng.chance(1, 30);
+                if f_malformed && rng.chance(1, 4) {
+                    // a complete but malformed FIRST message (unknown type, or a body at odds with
+                    // its own inner lengths): the unsplit payload parses to an error, and the
+                    // fragment completing it must return that error and end the defragmentation
+                    let blen = rng.urange(1, 60);
+                    let body = rng.bytes(blen);
+                    let t = *rng.pick(&[0x63u8, 0x0b, 0x01, 0x02, 0x0d, 0x06]);
+                    payload.extend_from_slice(&[t, 0, 0, blen as u8]);
+                    payload.extend_from_slice(&body);
+                    if t == 0x0b {
+                        // certificate list announcing more than the message holds
+                        let at = payload.len() - blen;
+                        payload[at] = 0x7f;
+                    }
+                }
                 for _ in 0..n {
                     let budget = if big { rng.urange(2000, 90000) } else { rng.urange(8, 200) };
                     payload.extend(enc::tls_message(&gen::any_handshake(rng, budget)));
@@ -472,6 +487,10 @@ pub fn execute(scn: &Scenario, ctx: &mut Ctx) {
                             from_buffer = true;
                         } else if is_complete_code(&e.out) {
                             e.out = Outcome::incomplete_unknown();
+                        } else if !e.out.is_incomplete() {
+                            // "the last returns exactly what parsing the unsplit payload returns and
+                            // ends defragmentation": also when that result is an error
+                            model.cur = None;
                         }
                         e
                     })
@@ -723,8 +742,8 @@ fn history_step(ctx: &mut Ctx, group: &mut Option<Group>, it: &Item, ctype: u8, 
                     ctx.violate(Prop::C07, "defrag-history/last-differs", || {
                         format!("op {}: last fragment of a {}-way split returned {}, parsing the unsplit {}-byte payload returns {}", opno, n, got.show(), total, whole.show())
                     });
-                } else if got.out.is_ok() && parser.defrag_in_progress() {
-                    ctx.violate(Prop::C07, "defrag-history/not-ended", || format!("op {}: defragmentation still in progress after the completing fragment", opno));
+                } else if !got.out.is_incomplete() && parser.defrag_in_progress() {
+                    ctx.violate(Prop::C07, "defrag-history/not-ended", || format!("op {}: defragmentation still in progress after the fragment that completed the first message (it returned {})", opno, got.show()));
                 }
             }
         }
